@@ -2,6 +2,7 @@ import SJ.Props.C13
 import SJ.Props.Typed
 import SJ.Props.TypedFaultEq
 import SJ.Props.StreamTyped
+import SJ.Props.C13Raw
 #print axioms SJ.Props.C13.c13_read
 #print axioms SJ.Props.C13.c13_read_error_class
 #print axioms SJ.Props.C13.c13_write_prefix
@@ -12,3 +13,8 @@ import SJ.Props.StreamTyped
 #print axioms SJ.Props.TypedFaultEq.c13_typed_fault_io
 #print axioms SJ.Props.C13.c13_into_io_error
 #print axioms SJ.Props.StreamTyped.c13_typed_stream_fault
+#print axioms SJ.Props.C13.c13_raw_fault
+#print axioms SJ.Props.C13.c13_raw_fault_io
+#print axioms SJ.Props.C13.c13_raw_clean_is_rawTop
+#print axioms SJ.Props.C13.c13_raw_fault_steps
+#print axioms SJ.Props.C13.c13_raw_fault_agrees
